@@ -41,7 +41,8 @@ META = dict(
               'Onsager.C19.c19Check_sound'],
     tie_theorems=[],
     rule='one case = (base crystal from the zoo or random, integer supercell matrix with |det| in 2..6 built as HNF x unimodular, '
-         'random atom order, optional 2e-10 noise, optional symmetry-breaking relabelling); non-trivial = the supercell has more '
+         'random atom order, optional 2e-10 noise, optional symmetry-breaking relabelling); plus n x 1 x 1 supercells (n = 3..8) of multi-atom '
+         'crystals with a coherent sublattice shift of 0.1-0.2 threshold; plus tie lattices in random orientation; non-trivial = the supercell has more '
          'atoms than the primitive cell; distinct by exact supercell description',
     trusted=['harness/c18lib.py (generators, snapping, native driver build; Crystal.genBZG is stubbed out for speed — C22\'s '
              'subject, not read by the reduction code)'],
@@ -163,10 +164,100 @@ def tie_stream(ctx, nprng, n):
             ctx.violation('tie-lattice:volume-or-handedness', 'minlattice changed the cell volume or left it left-handed', _replay(xc))
 
 
+def wyckoff_profile(c):
+    """symmetry structure that must not depend on the description: per species, the sorted sizes of the Wyckoff sets and the
+    sorted point-group orders of the sites"""
+    prof = []
+    for s in range(len(c.basis)):
+        sizes = sorted(len(w) for w in c.Wyckoff if next(iter(w))[0] == s)
+        pg = sorted(len(p) for p in c.pointG[s])
+        prof.append((sizes, pg))
+    return prof
+
+
+def elongated_stream(ctx, nprng, n):
+    """n x 1 x 1 supercells (n = 3..8, optionally re-described by a unimodular matrix) of crystals with several atoms per
+    primitive cell, coordinates perturbed by a sizeable fraction of the threshold: a coherent shift of one sublattice
+    (0.1-0.2 threshold) plus independent noise (0.02 threshold).  The reduced crystal must have the group order, Wyckoff
+    structure and point-group orders of the primitive crystal built directly, and what is derived from it with
+    crys.threshold (strain(0), Wyckoffpos of an atom, cart2pos) must see the noisy atoms as equivalent."""
+    rng = ctx.rng
+    crystal = X.crystal_module()
+    names = ('B2', 'diamond', 'rocksalt', 'HCP-ideal', 'L12', 'omega', 'FCC+O+T', 'tet-lowsym', 'honeycomb', 'hBN', 'square-2sp',
+             'tri+honey', 'B2-spin', 'diamond-AFM')
+    pool = [x for x in X.zoo() if x.name in names]
+    for k in range(n):
+        xc = pool[k % len(pool)] if k < 2 * len(pool) else X.random_xc(rng, nprng, maxatoms=4, rotate=0.5, redescribe=0.0)
+        if xc.N < 2: continue
+        try:
+            c0 = X.build(xc)
+        except Exception:
+            continue
+        d = xc.d
+        nrep = rng.randrange(3, 9)
+        ax = rng.randrange(d)
+        S = [[(nrep if (i == j == ax) else int(i == j)) for j in range(d)] for i in range(d)]
+        if rng.random() < 0.4:
+            U = X.rand_unimodular(rng, d, steps=1, big=1)
+            S = [[sum(S[i][l] * U[l][j] for l in range(d)) for j in range(d)] for i in range(d)]
+        xs = shuffled(rng, xc.transformed(S))
+        if xs.N > 48: continue
+        thr = rng.choice((1e-8, 1e-8, 1e-6))
+        frac = rng.choice((0.1, 0.15, 0.2))      # worst-case accumulated mismatch in gengroup ~ 4 x shift: stays below the threshold
+        which = rng.randrange(len(xs.basis))            # the sublattice that is shifted coherently
+        direction = nprng.normal(size=d); direction /= np.abs(direction).max()
+        basis = []
+        for si, atoms in enumerate(xs.basis):
+            lst = []
+            for u in atoms:
+                v = np.array([float(t) for t in u]) + 0.02 * thr * nprng.uniform(-1, 1, size=d)
+                if si == which: v = v + frac * thr * direction
+                lst.append(v)
+            basis.append(lst)
+        spins = None if xs.spins is None else [list(sl) for sl in xs.spins]
+        rp = dict(base=xc.name, supercell_matrix=S, threshold=thr, coherent_shift=dict(species=which, fraction_of_threshold=frac,
+                  direction=direction.tolist()), lattice_columns=xs.L.T.tolist(), basis=[[u.tolist() for u in a] for a in basis], spins=spins,
+                  how='crystal.Crystal(np.array(lattice_columns).T, [[np.array(u) ...]], spins=spins, threshold=threshold)')
+        ctx.count('elongated-stream'); ctx.count('elongated:n=%d' % nrep)
+        ctx.case(('elong', xs.key(), k), nontrivial=True)
+        try:
+            c1 = crystal.Crystal(xs.L, basis, spins=spins, threshold=thr)
+        except Exception as e:
+            ctx.violation('ctor-raises:%s:elongated' % type(e).__name__, 'Crystal(%d x 1 x 1 supercell of %s with sub-threshold noise) raises %r' % (nrep, xc.name, e), rp)
+            continue
+        rp.update(out_N=c1.N, out_nG=len(c1.G), out_threshold=c1.threshold, prim_N=c0.N, prim_nG=len(c0.G))
+        if [len(a) for a in c1.basis] != [len(a) for a in c0.basis]:
+            ctx.violation('elongated:atom-counts', '%d x 1 x 1 supercell of %s, noise %.1f threshold: %s atoms per species, primitive %s'
+                          % (nrep, xc.name, frac, [len(a) for a in c1.basis], [len(a) for a in c0.basis]), rp); continue
+        if len(c1.G) != len(c0.G):
+            ctx.violation('elongated:group-order', '%d x 1 x 1 supercell of %s with a coherent sublattice shift of %.1f threshold: |G| = %d, the primitive crystal '
+                          'built directly has %d (threshold carried by the reduced crystal: %g)' % (nrep, xc.name, frac, len(c1.G), len(c0.G), c1.threshold), rp)
+            continue
+        if wyckoff_profile(c1) != wyckoff_profile(c0):
+            ctx.violation('elongated:wyckoff-structure', '%d x 1 x 1 supercell of %s: Wyckoff set sizes / point-group orders %s differ from the primitive crystal %s'
+                          % (nrep, xc.name, wyckoff_profile(c1), wyckoff_profile(c0)), rp)
+        # downstream users of crys.threshold
+        try:
+            c2 = c1.strain(np.zeros((d, d)))
+            if len(c2.G) != len(c1.G) or c2.N != c1.N:
+                ctx.violation('elongated:rebuild-loses-symmetry', 'rebuilding the reduced crystal with its own threshold (strain(0)) changes |G| from %d to %d (threshold %g)'
+                              % (len(c1.G), len(c2.G), c1.threshold), rp)
+        except (ArithmeticError, RecursionError):
+            pass
+        s0 = min(range(len(c1.basis)), key=lambda i: len(c1.basis[i]))
+        W = c1.Wyckoffpos(c1.basis[s0][0])
+        want = next(len(w) for w in c1.Wyckoff if (s0, 0) in w)
+        if len(W) != want:
+            ctx.violation('elongated:wyckoffpos-of-atom', 'Wyckoffpos of atom (%d,0) has %d points, its Wyckoff set %d (threshold %g)' % (s0, len(W), want, c1.threshold), rp)
+        for sig, what in (X.oracle_ops(c1, tol=max(1e-6, 20 * nrep * thr)) + X.oracle_group(c1, tol=max(1e-6, 20 * nrep * thr)))[:1]:
+            ctx.violation('elongated:' + sig, what, rp)
+
+
 def run(ctx):
     rng = ctx.rng
     nprng = np.random.default_rng(rng.getrandbits(32))
     tie_stream(ctx, nprng, 160 if ctx.quick else 1500)
+    elongated_stream(ctx, nprng, 45 if ctx.quick else 600)
     nat = X.native_driver(DRV, MODELS) is not None
     if not nat: ctx.note('native driver could not be built: interpreter fallback (few cases)')
     t_run = time.time()
